@@ -269,3 +269,29 @@ def write_evidence(pid, tier, level, coverage, wall_s, violations, assumptions=N
     with open(os.path.join(OUT, "evidence", f"{pid}.json"), "w") as f:
         json.dump(ev, f, indent=1, default=str)
     return ev
+
+
+def generic_replay(path):
+    """Re-run the recorded command of a replay file against the current build. Exit 1 if delta still
+    produces the recorded (rejected) output or still fails the same way, 0 if its behaviour changed
+    (run the check again for a fresh verdict)."""
+    with open(path) as f:
+        d = json.load(f)
+    log(f"replay {path}\n  property={d.get('property')} signature={d.get('signature')}\n  what: {d.get('what')}")
+    r = d.get("run")
+    if not isinstance(r, dict) or "argv" not in r:
+        log("  (no single recorded command in this replay file: re-run the check)")
+        return 0
+    argv = [DELTA if i == 0 else a for i, a in enumerate(r["argv"])]
+    try:
+        p = subprocess.run(argv, input=base64.b64decode(r.get("stdin_b64", "")), env=base_env(r.get("env") or {}),
+                           cwd=os.path.join(scratch(), "cwd"), stdout=subprocess.PIPE, stderr=subprocess.PIPE, timeout=30)
+        out, code, timed_out = p.stdout, p.returncode, False
+    except subprocess.TimeoutExpired as e:
+        out, code, timed_out = e.stdout or b"", -999, True
+    same = (out[:200000] == base64.b64decode(r.get("stdout_b64", "")) and code == r.get("code")) or (timed_out and r.get("timed_out"))
+    log(f"  exit {code}, {len(out)} bytes: " + ("same behaviour as recorded" if same else "behaviour differs from the recording"))
+    if same:
+        log(f"VIOLATION property={d.get('property')} replay={path}")
+        return 1
+    return 0
